@@ -9,39 +9,46 @@ CONFIG = {
                  "convert_rdf_object, populate_list; maps keyed as in the source; HashMap indexing as explicit panic outcome) "
                  "plus a reader for the documents it emits; kernel-checked theorems about that model; JSON-level and "
                  "round-trip-level differential against the real JsonLdSerializer / JsonLdParser",
-    "level_text": "Proof on the Lean model (for all datasets; modes 1.0/1.1 x use_rdf_type; rdf_direction unset): "
-                  "(1) roundtrip_nolist: every dataset with absolute IRIs and without rdf:first/rest/nil - default and named graphs, "
-                  "blank graph names, blank nodes shared between graphs, all literal kinds incl. rdf:JSON, rdf:type with IRI / blank / "
-                  "literal objects - serialises to a document that reads back as exactly the expressible quads (none dropped, none "
-                  "invented, labels unchanged); built from denotes_processQuads (the engine holds exactly the expressible quads), the "
-                  "@graph-link invariant GInv (sound + complete) and node_object_roundtrip per slot; no_panic_nolist is its corollary. "
-                  "(2) dropped_iff_not_jsonld + isJsonLd_spec: the document depends only on the quads is_jsonld keeps, and is_jsonld is "
-                  "exactly the property's 'expressible'. "
-                  "(3) no_panic_partial: on EVERY dataset the marking phase (mark_list_node for all seeds: the only reader of "
-                  "unique_parent, and a `loop`) returns normally - no panic, and the walk up the rdf:rest parents passes each slot at "
-                  "most once, so it terminates (the model's fuel is never exhausted); uses unique_parent_lookup_is_get, which pins "
-                  "the regenerated switch (`.get(s_id)`, not `[s_id]`). "
-                  "(4) kernel-checked (decide) counterexamples to the full statements with lists: roundtrip_refuted_cross_graph / "
-                  "_self_list / _typed_list, hence suppressed_compensated_refuted and roundtrip_all_refuted. "
+    "level_text": "Proof on the Lean model (for all datasets with absolute IRIs; modes 1.0/1.1 x use_rdf_type): "
+                  "(1) roundtrip_nolist: every dataset without rdf:first/rest/nil - default and named graphs, blank graph names, "
+                  "blank nodes shared between graphs, all literal kinds incl. rdf:JSON, rdf:type with IRI / blank / literal objects - "
+                  "round-trips exactly (none dropped, none invented, labels unchanged) under EVERY rdf_direction setting that is lossless "
+                  "for it (DirOk: unset; i18n-datatype with well-formed `i18n#lang_dir` datatypes; compound-literal without rdf:direction "
+                  "quads); DirOk is necessary: roundtrip_refuted_i18n / _compound (kernel-checked witnesses = the two known findings). "
+                  "(2) no_panic: on EVERY dataset, with every option setting, no panicking expression of the serializer is reached "
+                  "(unique_parent lookup, `&id[..2]`, populate_list's `map[RDF_FIRST][0]` / `map[RDF_REST][0]`, `node[RDF_VALUE][0]`, "
+                  "`unreachable!()`); the IRI hypothesis is necessary (no_panic_needs_absolute_iris, replayed: relative_iri cases). "
+                  "no_panic_partial: the marking phase also TERMINATES (walk up the rdf:rest parents passes each slot once). "
+                  "(3) suppressed_only_list_cells (the property's mechanism clause): a label is put into list_node - hence suppressed by "
+                  "jsonify - only if in one graph g it is a blank node of list shape whose unique parent (the ONLY slot and key where the "
+                  "label occurs as an object: OInv) lies in g too and whose single rdf:rest value is rdf:nil or again such a cell of g. "
+                  "(4) dropped_iff_not_jsonld + isJsonLd_spec: the document depends only on the quads is_jsonld keeps = the property's "
+                  "'expressible'. (5) unique_parent_lookup_is_get and constants_as_in_source pin the regenerated table (lookup form, the 10 "
+                  "string constants, the size bounds of is_list_node / is_compound_literal) to the model. "
+                  "(6) kernel-checked counterexamples to the full statements with lists: roundtrip_refuted_cross_graph / _self_list / "
+                  "_typed_list, hence suppressed_compensated_refuted and roundtrip_all_refuted; every witness is a corpus case replayed on "
+                  "the implementation. "
                   "The tie model = code is differential: canonical JSON of the model's document vs the real serializer's text, and the "
                   "model's predicted round-trip verdict vs JsonLdParser on the real output (exact blank-node isomorphism in the harness), "
-                  "on the list-shape generator plus exhaustive small scopes (all datasets of <= 2 [quick] / <= 3-4 [thorough] quads over a "
-                  "48-72 quad vocabulary; a one-cell list plus every <= 2 further quads over 96). Independent of the model, the harness "
-                  "checks the real code alone: serializer error / panic / hang on an in-domain dataset, round trip through the real "
-                  "parser, and the second QuadSerializer (Jsonifier, reused after another dataset) against the stringifier.",
-    "level_note": "Not proved (def NoPanic / SuppressedCompensated, with the missing obligation in the doc comments): anything about the "
-                  "rendering of MARKED lists (populate_list panic-freedom and termination; a well-formed singly referenced list comes back) "
-                  "- lists are covered by kernel-checked examples and the differential only; rdf_direction i18n / compound (differential "
-                  "only). Observed only: json-ld 0.15.1 (parser), JSON text printing (re-parsed by the harness). Excluded by the property: "
-                  "use_native_types. rdf:JSON lexical forms are opaque text in the model (35 canonical forms exercised: exponents, 2^53, "
-                  "escapes, non-BMP, depth 5). Known findings (5 open + 1 fixed): list_node keyed by label only; self-containing lists "
-                  "dropped; rdf:type rdf:List of compacted cells dropped (as in the W3C algorithm); i18n datatype without language misread "
-                  "by json-ld; compound literals never survive; (fixed 949b852) panic on unreferenced list heads.",
+                  "on the list-shape generator plus exhaustive small scopes. Independent of the model, the harness checks the real code "
+                  "alone: serializer error / panic / hang on an in-domain dataset, round trip through the real parser, and the second "
+                  "QuadSerializer (Jsonifier, reused after another dataset) against the stringifier.",
+    "level_note": "Not proved (def NoPanic / SuppressedCompensated, missing obligations in the doc comments): termination of the RENDERING of "
+                  "marked lists (populate_list loop / nested convert: the model's fuel; never exhausted in 200 k cases) and the positive round "
+                  "trip of datasets WITH well-formed lists (needs the reader's fresh-label renaming as a blank-node bijection): lists are "
+                  "covered by Marked / no_panic, kernel-checked examples and the differential. Observed only: json-ld 0.15.1 (parser; the "
+                  "model's reader mirrors it), JSON text printing (re-parsed by the harness). Excluded by the property: use_native_types. "
+                  "rdf:JSON lexical forms are opaque text in the model (35 canonical forms exercised). Known findings (5 open + 1 fixed): "
+                  "list_node keyed by label only; self-containing lists dropped; rdf:type rdf:List of compacted cells dropped (as in the W3C "
+                  "algorithm); i18n datatype without language misread by json-ld; compound literals never survive; (fixed 949b852) panic "
+                  "on unreferenced list heads.",
     "tables": ["jsonldflags"],
     "lean_targets": ["SophiaProofs.Props.C12", "SophiaProofs.Audit.C12"],
-    "theorems": ["unique_parent_lookup_is_get", "no_panic_partial", "no_panic_nolist", "dropped_iff_not_jsonld", "isJsonLd_spec",
+    "theorems": ["unique_parent_lookup_is_get", "constants_as_in_source", "no_panic", "no_panic_partial", "no_panic_nolist",
+                 "no_panic_needs_absolute_iris", "suppressed_only_list_cells", "dropped_iff_not_jsonld", "isJsonLd_spec",
                  "roundtrip_nolist", "roundtrip_nolist_closed", "roundtrip_nolist_partial", "node_object_roundtrip",
                  "roundtrip_refuted_cross_graph", "roundtrip_refuted_self_list", "roundtrip_refuted_typed_list",
+                 "roundtrip_refuted_i18n", "roundtrip_refuted_compound",
                  "suppressed_compensated_refuted", "roundtrip_all_refuted"],
     "native_ok": [],
     "panic_is_reply": True,
